@@ -3,7 +3,8 @@ package rules
 // C19 — replication state lookup by time terminates with the first state at or after t.
 //
 // Files: c19.go (registration, sensitivity suite, layout table, model), c19_scan.go and c19_cycles.go (M1, M2: loops and
-// neighbour scans, decided on the CFG), c19_interp.go (abstract evaluator), c19_eval.go (M3–M5: decision and
+// neighbour scans, decided on the CFG), c19_order.go (M6: classification of probed states by time), c19_exits.go (one-line predicates looked through,
+// loops described by their exits), c19_interp.go (abstract evaluator), c19_eval.go (M3–M5: decision and
 // formatting functions evaluated over their finite abstract domain), c19_variants.go (behaviour-preserving variants).
 //
 // Anchors. Everything is resolved from exported API and roles, never from the name or the place of an
@@ -49,15 +50,16 @@ func init() {
 		ID:    "C19",
 		Title: "Replication state lookup by time terminates with the first state at or after t",
 		Explanation: "Necessary conditions, decided on package replication for everything statically reachable from the four (*Datasource).…StateAt lookups. " +
-			"(M1) every atomic part of what keeps a `for` loop running (its condition and the negated guards of leading `if … { break/return }`) depends on a variable the loop body assigns (a loop-invariant part bounds nothing); range loops run over finite values. " +
+			"(M1) every atomic part of what keeps a `for` loop running (its condition and the negated guards of leading `if … { break/return }`) depends on a variable the loop body assigns (a loop-invariant part bounds nothing); a `for { … }` that has neither is described by its exits (return / own break) instead: it has one, and every atomic condition of the enclosing ifs an exit is taken under depends on a variable the body assigns; range loops run over finite values. " +
 			"(M2) for the binary-search loop (kept running by lo.SeqNum… < hi.SeqNum) and each neighbour scan over missing state files (a `for` with one state fetch, nested in it or in a function it calls; the fetch is recognised through wrapper functions): the scanned variable starts one step from the probed middle, is the variable probed, is stepped once, after the probe, in the direction of its start on every way round the loop that found nothing; the probe is controlled inside the loop by a comparison that is `lo.SeqNum < v` (down) / `v < hi.SeqNum` (up) in integer normal form (an off-by-one in either direction is reported); once a state is found neither the same probe nor another scan is reachable (CFG walk with the nil tests decided); both directions exist; and when every probe of one iteration finds nothing the only way on is `return hi`, like every other success return reachable from the loop. So every probe lies strictly between the bounds, the neighbours next to both bounds are probed, and a scan costs at most one request per missing file. " +
 			"(M3) evaluated over kind × sequence number × HTTP status × error: every exported state/data/current-state fetcher requests, as its first request, exactly the URL tables/replication.json gives (path format, three zero-padded decimal digit groups, suffix per file kind, current-state file for sequence number 0, base URL of its own datasource); Dir() values; the function the state decoders parse timestamps with returns the right instant for the planet's timestamp forms (escaped colons); NotFound is true exactly for a status error with code 404; with a 404 response every state/data fetcher returns an error satisfying NotFound, with 500/403 an error that does not, with 200 no status error. " +
 			"(M4) changeset state off-by-one, evaluated: the current state reports the parsed `sequence:` value +1 (and returns that number), a numbered state reports the number requested. " +
 			"(M5) evaluated: each lookup and its package-level delegate calls the search exactly once with the caller's ctx and timestamp, returns the state found together with K(state.SeqNum) of its own kind, propagates the error; the descriptor's functions request the current/numbered state files of the lookup's own kind on the lookup's own datasource (the default datasource for the delegates); the minimum sequence number is a constant >= 1. " +
+			"(M6) in the binary-search loop the probed state is classified by time as the result demands. Read off the code: every success return reachable from the loop gives the upper bound, the lower bound is never returned, so the upper bound is the candidate answer (must be at or after t) and the lower bound is exclusive (must be strictly before t). For each of the three orderings of the probed state's timestamp and the query time (<, ==, >) the CFG is walked from the probe with every comparison of the two instants decided (After/Before/Equal/Compare of time.Time in any spelling, negations, inverted or swapped branches, switch forms, one-line predicates): a state before t becomes the lower and never the upper bound, a state exactly at t or after t becomes the upper and never the lower bound (a state written exactly at t that becomes the lower bound is lost: the lookup answers with the next one). " +
 			"The verdicts do not depend on how the code is cut into helpers, on if/switch/early-return form, on local names, named constants or statement order. " +
-			"NOT decided: the logarithmic request bound, which state is returned for which timestamp (boundary cases of the binary search, queries before the first state), the bound-finding loop beyond M1, monotonicity of server timestamps, HTTP transport behaviour, parsing of malformed state files, the decoding of interval state files (evaluation stops at their line loop), sequence numbers of 10^9 and more.",
+			"NOT decided: the logarithmic request bound, which state is returned for which timestamp beyond M6 (the classification of states by the bound-finding loop and of the initial bounds, where the lower bound is sometimes returned as the answer and sometimes exclusive so that no inclusive/exclusive reading can be taken from the code; the edge-case returns for adjacent sequence numbers; queries before the first state), the bound-finding loop beyond M1, monotonicity of server timestamps, HTTP transport behaviour, parsing of malformed state files, the decoding of interval state files (evaluation stops at their line loop), sequence numbers of 10^9 and more.",
 		Assumptions: []string{"go/types, go/cfg (x/tools v0.29.0)", "tables/replication.json is the planet server's layout", "the abstract evaluator of rules/c19_interp.go implements the semantics of the Go subset it accepts (anything outside it is reported as undecided); fmt.Sprintf, strconv formatting and time.Parse of the checker's Go toolchain are the ones the library is built with (they are applied to the library's constants and the table's samples; the library itself is neither compiled nor run)", "a function of the package that makes exactly one state fetch outside any loop with an unmodified parameter as sequence number is a fetch of that argument (its error handling is not part of M2)"},
-		LevelText:   "Necessary conditions of termination and of the planet layout. Structural (CFG, guard facts, integer normal form of comparisons): loop conditions depend on what their bodies vary; neighbour scans start next to the middle, step the probed variable once after the probe, are bounded strictly by the bound they walk towards, stop at the first state found, and an iteration that finds nothing returns the upper bound. By exhaustive evaluation over a finite abstract domain: URLs, Dir values, timestamp layouts, the 404 decision and status propagation equal the external layout table; the changeset off-by-one correction; each lookup serves its own kind on its own datasource. Which state is returned for which timestamp and the logarithmic bound are not decided.",
+		LevelText:   "Necessary conditions of termination and of the planet layout. Structural (CFG, guard facts, integer normal form of comparisons): loop conditions depend on what their bodies vary; neighbour scans start next to the middle, step the probed variable once after the probe, are bounded strictly by the bound they walk towards, stop at the first state found, and an iteration that finds nothing returns the upper bound. By exhaustive evaluation over a finite abstract domain: URLs, Dir values, timestamp layouts, the 404 decision and status propagation equal the external layout table; the changeset off-by-one correction; each lookup serves its own kind on its own datasource. Structural, over the three orderings of probed timestamp and query time: the binary search moves its exclusive lower bound only to states strictly before t and its returned upper bound only to states at or after t. Which state the bound-finding phase and the edge cases return, and the logarithmic bound, are not decided.",
 		LevelNote:   "Trusts the Go type checker (constant evaluation, callee resolution), go/cfg, the layout table, the abstract evaluator (c19_interp.go) and fmt/strconv/time.Parse for evaluating constants. Static call reachability inside package replication (function references, including inside closures). URL digit groups are checked on 10 sample numbers below 10^9, not symbolically.",
 		Technique:   "loop-variance analysis over guard facts; role-derived scan model decided on the CFG (three-valued evaluation of branch conditions under `state == nil` valuations, linear normal form of comparisons, parameters read as caller arguments); abstract evaluation (path-exploring interpreter over go/types-resolved syntax, opaque values with ±constant identity) of formatting and decision functions against an external layout table",
 		DesignRef:   "DESIGN.md §5 C19, Appendix D; ROBUSTNESS.md",
@@ -67,6 +69,7 @@ func init() {
 			{ID: "M3", Floor: 28, Doc: "planet replication layout, by evaluation: URL requested per exported fetcher (12), Dir() values (4), timestamp forms (3), NotFound decision (1), status propagation per state/data fetcher (8)", Run: c19M3},
 			{ID: "M4", Floor: 2, Doc: "changeset state off-by-one, by evaluation: current state reports the parsed sequence +1, numbered state reports the requested number", Run: c19M4},
 			{ID: "M5", Floor: 16, Doc: "the four …StateAt lookups and their package-level delegates, by evaluation: one search with the caller's arguments, own kind and own datasource, minimum >= 1, result returned with its own number", Run: c19M5},
+			{ID: "M6", Floor: 2, Doc: "the binary search classifies a probed state by time as its result demands: only a state strictly before t becomes the exclusive lower bound, a state at or after t becomes the upper bound (the value returned), decided for the three orderings of the two instants", Run: c19M6},
 		},
 		Mutants: c19Mutants,
 		Benign:  c19Benign,
@@ -85,6 +88,7 @@ var c19Mutants = []core.Mutant{
 	{Name: "m1-down-bound-static-pre", File: "replication/search.go", Find: "lower.SeqNum < splitID {", Replace: "lower.SeqNum < upper.SeqNum {", ExpectRule: "M1", ExpectConstruct: "loop@findInRange[1.1] conjunct 2"},
 	{Name: "m1-down-bound-static-post", File: "replication/search.go", Find: "lower.SeqNum < sID {", Replace: "lower.SeqNum < splitID {", ExpectRule: "M1", ExpectConstruct: "loop@findInRange[1.1] conjunct 2"},
 	{Name: "m1-up-bound-static-post", File: "replication/search.go", Find: "sID < upper.SeqNum {", Replace: "splitID < upper.SeqNum {", ExpectRule: "M1", ExpectConstruct: "loop@findInRange[1.2] conjunct 2"},
+	{Name: "m1-exit-guard-invariant", File: "replication/search.go", Find: "\t\t\tfor split == nil && lower.SeqNum < sID {\n\t\t\t\tsplit, err = s.State(ctx, sID)\n\t\t\t\tif err != nil && !NotFound(err) {\n\t\t\t\t\treturn nil, err\n\t\t\t\t}\n\n\t\t\t\tsID--\n\t\t\t}\n", Replace: "\t\t\tfor {\n\t\t\t\tsplit, err = s.State(ctx, sID)\n\t\t\t\tif err != nil && !NotFound(err) {\n\t\t\t\t\treturn nil, err\n\t\t\t\t}\n\n\t\t\t\tsID--\n\t\t\t\tif split != nil {\n\t\t\t\t\tbreak\n\t\t\t\t}\n\t\t\t\tif lower.SeqNum >= splitID {\n\t\t\t\t\tbreak\n\t\t\t\t}\n\t\t\t}\n", ExpectRule: "M1", ExpectConstruct: "loop@findInRange[1.1] exit 3 conjunct 1"},
 	// M2
 	{Name: "m2-probe-not-stepped", File: "replication/search.go", Find: "split, err = s.State(ctx, sID)", Replace: "split, err = s.State(ctx, splitID)", ExpectRule: "M2", ExpectConstruct: "scan-down@findInRange probe"},
 	{Name: "m2-step-wrong-way", File: "replication/search.go", Find: "\t\t\t\tsID--\n", Replace: "\t\t\t\tsID++\n", ExpectRule: "M2", ExpectConstruct: "scan-down@findInRange step"},
@@ -108,6 +112,12 @@ var c19Mutants = []core.Mutant{
 	{Name: "m2-down-bound-stale-copy", File: "replication/search.go", Find: "\tfor lower.SeqNum+1 < upper.SeqNum {\n\t\t// could do better here\n\t\tsplitID := (lower.SeqNum + upper.SeqNum) / 2\n\n\t\tsplit, err := s.State(ctx, splitID)\n\t\tif err != nil && !NotFound(err) {\n\t\t\treturn nil, err\n\t\t}\n\n\t\tif split == nil {\n\t\t\t// file missing, search the next towards lower\n\t\t\tsID := splitID - 1\n\n\t\t\tfor split == nil && lower.SeqNum < sID {", Replace: "\tlo := lower.SeqNum\n\tfor lower.SeqNum+1 < upper.SeqNum {\n\t\t// could do better here\n\t\tsplitID := (lower.SeqNum + upper.SeqNum) / 2\n\n\t\tsplit, err := s.State(ctx, splitID)\n\t\tif err != nil && !NotFound(err) {\n\t\t\treturn nil, err\n\t\t}\n\n\t\tif split == nil {\n\t\t\t// file missing, search the next towards lower\n\t\t\tsID := splitID - 1\n\n\t\t\tfor split == nil && lo < sID {", ExpectRule: "M2", ExpectConstruct: "scan-down@findInRange bound"},
 	{Name: "m2-prestep-bound-not-shifted", File: "replication/search.go", Find: "\t\t\tsID := splitID - 1\n\n\t\t\tfor split == nil && lower.SeqNum < sID {\n\t\t\t\tsplit, err = s.State(ctx, sID)\n\t\t\t\tif err != nil && !NotFound(err) {\n\t\t\t\t\treturn nil, err\n\t\t\t\t}\n\n\t\t\t\tsID--\n\t\t\t}\n", Replace: "\t\t\tsID := splitID\n\n\t\t\tfor split == nil && lower.SeqNum < sID {\n\t\t\t\tsID--\n\t\t\t\tsplit, err = s.State(ctx, sID)\n\t\t\t\tif err != nil && !NotFound(err) {\n\t\t\t\t\treturn nil, err\n\t\t\t\t}\n\t\t\t}\n", ExpectRule: "M2", ExpectConstruct: "scan-down@findInRange bound"},
 	{Name: "m2-scan-overwrites-found-state", File: "replication/search.go", Find: "\t\t\tsID := splitID - 1\n\n\t\t\tfor split == nil && lower.SeqNum < sID {\n\t\t\t\tsplit, err = s.State(ctx, sID)\n\t\t\t\tif err != nil && !NotFound(err) {\n\t\t\t\t\treturn nil, err\n\t\t\t\t}\n\n\t\t\t\tsID--\n\t\t\t}\n", Replace: "\t\t\tsID := splitID - 1\n\n\t\t\tfor lower.SeqNum < sID {\n\t\t\t\tst, err := s.State(ctx, sID)\n\t\t\t\tif err != nil && !NotFound(err) {\n\t\t\t\t\treturn nil, err\n\t\t\t\t}\n\n\t\t\t\tsplit = st\n\t\t\t\tsID--\n\t\t\t}\n", ExpectRule: "M2", ExpectConstruct: "scan-down@findInRange stop"},
+	// M6
+	{Name: "m6-equal-becomes-lower-seeded", File: "replication/search.go", Find: "\t\tif timestamp.After(split.Timestamp) {\n\t\t\tlower = split\n\t\t} else {\n\t\t\tupper = split\n\t\t}\n", Replace: "\t\tif split.Timestamp.After(timestamp) {\n\t\t\tupper = split\n\t\t} else {\n\t\t\tlower = split\n\t\t}\n", ExpectRule: "M6", ExpectConstruct: "order@findInRange lower"},
+	{Name: "m6-equal-becomes-lower-not-before", File: "replication/search.go", Find: "\t\tif timestamp.After(split.Timestamp) {\n\t\t\tlower = split\n\t\t} else {\n\t\t\tupper = split\n\t\t}\n", Replace: "\t\tif !timestamp.Before(split.Timestamp) {\n\t\t\tlower = split\n\t\t} else {\n\t\t\tupper = split\n\t\t}\n", ExpectRule: "M6", ExpectConstruct: "order@findInRange lower"},
+	{Name: "m6-equal-becomes-lower-compare", File: "replication/search.go", Find: "\t\tif timestamp.After(split.Timestamp) {\n\t\t\tlower = split\n\t\t} else {\n\t\t\tupper = split\n\t\t}\n", Replace: "\t\tif timestamp.Compare(split.Timestamp) >= 0 {\n\t\t\tlower = split\n\t\t} else {\n\t\t\tupper = split\n\t\t}\n", ExpectRule: "M6", ExpectConstruct: "order@findInRange lower"},
+	{Name: "m6-branches-swapped", File: "replication/search.go", Find: "\t\tif timestamp.After(split.Timestamp) {\n\t\t\tlower = split\n\t\t} else {\n\t\t\tupper = split\n\t\t}\n", Replace: "\t\tif timestamp.After(split.Timestamp) {\n\t\t\tupper = split\n\t\t} else {\n\t\t\tlower = split\n\t\t}\n", ExpectRule: "M6", ExpectConstruct: "order@findInRange upper"},
+	{Name: "m6-equal-updates-nothing", File: "replication/search.go", Find: "\t\tif timestamp.After(split.Timestamp) {\n\t\t\tlower = split\n\t\t} else {\n\t\t\tupper = split\n\t\t}\n", Replace: "\t\tif timestamp.After(split.Timestamp) {\n\t\t\tlower = split\n\t\t} else if split.Timestamp.After(timestamp) {\n\t\t\tupper = split\n\t\t}\n", ExpectRule: "M6", ExpectConstruct: "order@findInRange upper"},
 	// M3
 	{Name: "m3-format-two-digit-leaf", File: "replication/changesets.go", Find: "%03d/%03d/%03d", Replace: "%03d/%03d/%02d", ExpectRule: "M3", ExpectConstruct: "url@(*Datasource).ChangesetState [state]"},
 	{Name: "m3-level2-modulus", File: "replication/interval.go", Find: "(n%1000000)/1000", Replace: "(n%100000)/1000", ExpectRule: "M3", ExpectConstruct: "url@(*Datasource).MinuteState [state]"},
